@@ -45,8 +45,27 @@ class _ScriptedSink:
     """recording sink of the main router.  When the router calls one of its methods (not from inside another sink's
     method) it performs the next entry of its script for that method: re-entrant router.add_rule(...) calls and/or raise."""
 
-    def __init__(self, n, ctx):
+    def __init__(self, n, ctx, falsy=False, alike=False):
         self.n, self.ctx = n, ctx
+        self.falsy, self.alike = falsy, alike
+
+    # falsy but valid: a sink whose truth value is False (a list-like recorder that is still empty) is a sink like any other
+    def __len__(self):
+        if self.falsy:
+            return 0
+        raise TypeError('no len()')
+
+    def __bool__(self):
+        return not self.falsy
+
+    # identity, not equality: sinks that compare equal to every other sink are still different objects
+    def __eq__(self, other):
+        return self is other or (self.alike and isinstance(other, _ScriptedSink))
+
+    def __ne__(self, other):
+        return not self.__eq__(other)
+
+    __hash__ = None
 
     def _call(self, kind, ev):
         ctx = self.ctx
@@ -110,6 +129,8 @@ class C18(Prop):
             'every pair of one-act behaviours (7 kinds) at start/stop/status of the fallback and a rule sink over 5 histories. '
             'non-trivial = at least one rule and one status event, or a round trip; distinct = distinct input S-expression')
     assumptions = ['translator tie (harness/pystream.py): StreamResultRouter.status is symbolically executed and startTestRun/stopTestRun/add_rule/policy methods are matched statement by statement on every run; trusted: the translator and the reading of the recognised forms by TTV/Model/RouterSrc.lean (is-not-None, in-dict, and/not, str truthiness, split/slice, live-list loop); trusted normalisations before comparing: an arm is read knowing its test, nested ifs = `and`, conjuncts that cannot raise in canonical order (a dict lookup is only admitted on a path that tested the key, else the tie breaks), == None for is None, early returns with one forwarding call per path, aliases of the rule dicts, prefixes.get(k) tested for None = `k in prefixes` (values are pairs), split("/", n>=1)[0] / partition("/")[0], tests of the parameter do_start_stop_run split / merged / turned around - the order of calls on sinks, of the append and of the _in_run assignments is asserted as written',
+                   'INTERPRETATIONS modelled from the code, not repaired (audit/C18 v3 and its borderline list): an event is a status(**kwargs) call - StreamResultRouter.status takes keywords only, a positional call raises TypeError and reaches no sink, also when it comes through CopyStreamResult / StreamTagger / TimestampingStreamResult, which pass positional arguments on unchanged; a sink whose rule is replaced stays registered for start/stop; a raising sink ends the operation there (_in_run keeps its value, later sinks are not called); route codes with empty segments are read literally; StreamToQueue(queue, None) cannot prefix a route code (TypeError); no statement about threads',
+                   'sink objects are told apart by identity: half of the generated sinks are falsy (__len__ == 0 / __bool__ False), a third compare equal to every other sink',
                    'a scripted sink behaves plainly (records only) when it is called from inside a re-entrant add_rule, i.e. the immediate startTestRun of a rule added by another sink\'s method while a run is in progress; nesting of scripted behaviour is therefore one level deep',
                    'Python list iteration over a list that grows (for sink in self._sinks) is modelled by an index loop over the live list, with a fuel bound proved sufficient',
                    'Python dict semantics of the two rule tables are modelled by association lists (re-registration overwrites)',
@@ -153,7 +174,9 @@ class C18(Prop):
 
             def sink(n):
                 if n not in sinks:
-                    sinks[n] = _ScriptedSink(n, ctx)
+                    # half of the sink objects are falsy (incl. the fallback in half of the inputs), a third compare equal to
+                    # every other sink: neither may matter to the router
+                    sinks[n] = _ScriptedSink(n, ctx, falsy=(n + len(ops)) % 2 == 0, alike=(n + len(ops)) % 3 == 0)
                 return sinks[n]
             router = StreamResultRouter(sink(0) if has_fb else None, do_start_stop_run=fb_flag)
 
